@@ -153,6 +153,9 @@ class CDF(keras.layers.Layer):
     self.input_scaling_type = input_scaling_type
     self.input_scaling_monotonicity = utils.canonicalize_monotonicity(
         input_scaling_monotonicity)
+    if sparsity_factor < 1:
+      raise ValueError("sparsity_factor must be at least 1. Given: {}".format(
+          sparsity_factor))
     self.sparsity_factor = sparsity_factor
 
     self.kernel_initializer = create_kernel_initializer(
